@@ -222,6 +222,24 @@ func (c *Ctx) entryFuncs() []*types.Func {
 				if id != nil {
 					if fn, ok := info.Uses[id].(*types.Func); ok {
 						called[fn.Origin()]++
+						// a function handed to sync.Map.Range runs synchronously inside that call: it is part of the caller, not an
+						// entry of its own
+						if fn.Name() == "Range" && fn.Pkg() != nil && fn.Pkg().Path() == "sync" {
+							for _, a := range x.Args {
+								var aid *ast.Ident
+								switch ax := ast.Unparen(a).(type) {
+								case *ast.Ident:
+									aid = ax
+								case *ast.SelectorExpr:
+									aid = ax.Sel
+								}
+								if aid != nil {
+									if cb, ok := info.Uses[aid].(*types.Func); ok {
+										called[cb.Origin()]++
+									}
+								}
+							}
+						}
 					}
 				}
 			case *ast.GoStmt:
